@@ -88,7 +88,7 @@ class FunctionSpec:
         spec = self
 
         def call(ex, f, args, kwargs):
-            if isinstance(f, FuncVal) and f.bound is not None and 'self' in spec.param_names():
+            if isinstance(f, FuncVal) and f.bound is not None and 'this' in spec.param_names():
                 args = [f.bound] + list(args)
             inp = spec.bind(list(args), dict(kwargs))
             inp = {k: ex.concretize(v) if spec.concretize_arg(k) else v for k, v in inp.items()}
@@ -179,8 +179,8 @@ def build_obligations(repo, spec, contracts=None):
             ex.assume(p)
         args, kwargs = spec.call_args(inp)
         bound = None
-        if 'self' in inp and not info.is_static:
-            bound = inp['self']
+        if 'this' in inp and not info.is_static:
+            bound = inp['this']
             args = [a for a in args if a is not bound]
         ex.in_await = True
         return ex._run_body(info, list(args), dict(kwargs), bound)
